@@ -334,6 +334,7 @@ func l3DecoderCase(c *Ctx, id string, st *trie.SlimTrie, tc *TrieCase, spec *Enc
 		}
 		fmt.Fprintf(iw, "q %s G %s\n", hxs(q), s)
 		c.Or.Count("message-level GetID/Get queries")
+		c14mL3Query(c, st, tc, q) // C14: GetI<N> recomputed by the model from the same message fields (MI line)
 	}
 	// C04m: NewIter / ScanFrom / ScanFromTo recomputed by the model from the same message fields (MS lines, prop_c04m.go)
 	c04mL3Hook(c, st, tc)
@@ -848,4 +849,38 @@ func c18mL3Hook(c *Ctx, st *trie.SlimTrie, tc *TrieCase) {
 	texts, canon := c19WantVals(tc, ref)
 	c19Observe(st, texts).write(iw, canon)
 	c.Or.Count("message-level Stat/String blocks")
+}
+
+// ---- C14 over the message (MI lines) ----------------------------------------
+// c14mL3Query is called per query of l3DecoderCase for tries whose encoder is a fixed-width
+// integer codec: the typed getter of the MATCHING width (GetI8/16/32/64 for 1/2/4/8 bytes) is
+// run on the implementation and the extracted GetIntMsg.mgeti (GetID over the bitmaps,
+// getLeafIndex = id - Rank64(NodeTypeBM), the slice of Leaves.Bytes read directly) on the REAL
+// message fields.  With nil values (Leaves == nil) a hit is the nil-pointer panic on both sides.
+func c14mL3Width(enc string) uint {
+	switch enc {
+	case "I8":
+		return 1
+	case "I16", "U16":
+		return 2
+	case "I32", "U32":
+		return 4
+	case "I64", "U64":
+		return 8
+	}
+	return 0
+}
+
+func c14mL3Query(c *Ctx, st *trie.SlimTrie, tc *TrieCase, q string) {
+	w := c14mL3Width(tc.Enc)
+	if w == 0 {
+		return
+	}
+	fmt.Fprintf(c.Cases(), "MI %d %s\n", w, hxs(q))
+	s, p := protect(func() string { f, v := c14GetI(st, w, q); return c14Fmt(f, v) })
+	if p != "" {
+		s = "PANIC"
+	}
+	fmt.Fprintf(c.Impl(), "i %s W%d %s\n", hxs(q), w, s)
+	c.Or.Count("message-level GetI<N> queries")
 }
